@@ -61,7 +61,7 @@ def newWildcardSearch (terms : List Term) : Option Wild :=
     let tl := terms.getLast?.getD .star
     let suf := if tl.isText then tl.data else []
     let mids := middleTerms terms
-    match mids.mapM newSubstringPattern with
+    match newSubstringPatterns mids with
     | none => none
     | some ms => some ⟨pre, suf, ms, (mids.map List.length).sum, false⟩
 
@@ -144,6 +144,16 @@ def NumRange.check (pf : Bytes → Option Int) (s : NumRange) (rawVal : Bytes) :
   | some val =>
     (if s.includeFrom then decide (s.from_ ≤ val) else decide (s.from_ < val)) &&
     (if s.includeTo then decide (val ≤ s.to) else decide (val < s.to))
+
+/-- order key of `math.MaxFloat64` (its IEEE-754 bit pattern 0x7FEFFFFFFFFFFFFF) -/
+def maxFloatKey : Int := 9218868437227405311
+
+/-- the `check` of the searcher that `newSearcher` builds for a literal token (`literalSearch` for a single text
+term, `wildcardSearch` otherwise), with the `narrowed` flag as given; `none` = panic -/
+def checkTerms (terms : List Term) (narrowed : Bool) (v : Bytes) : Option Bool :=
+  match terms with
+  | [.text d] => some ((⟨d, narrowed⟩ : Lit).check v)
+  | _ => (newWildcardSearch terms).map fun s => ({ s with narrowed := narrowed } : Wild).check v
 
 /-! ## tokens, providers, newSearcher, Search -/
 
@@ -239,22 +249,29 @@ def selectEntries (hint minVal : Bytes) (maxVals : List Bytes) : Nat × Nat :=
       let l := SV.searchGo (fun i => bcmp hint (cut (maxVals.getD i []) hl) != .gt) 0 r
       (l, r)
 
-/-- `parser.GetHint` -/
-def getHint : Token → Bytes
-  | .literal (.text d :: _) => d
-  | _ => []
+/-- `parser.GetHint`; `none` = panic (`t.Terms[0]` on an empty term list) -/
+def getHint : Token → Option Bytes
+  | .literal [] => none
+  | .literal (.text d :: _) => some d
+  | _ => some []
+
+/-- `FieldData.MinVal`: the first token of the field's first entry -/
+def minValOf (blocks : List (List Bytes)) : Bytes := (blocks.headD []).headD []
+/-- the entries' `MaxVal`s: the last token of each entry -/
+def maxValsOf (blocks : List (List Bytes)) : List Bytes := blocks.map fun b => b.getLast?.getD []
 
 /-- `sealedTokenIndex.GetTIDsByTokenExpr` on one field: `blocks` = the field's token-table entries (each a
 non-empty run of the sorted dictionary), first TID `base`.  `none` = panic. -/
 def sealedSearch (pf : Bytes → Option Int) (maxKey : Int) (token : Token) (base : Nat) (blocks : List (List Bytes)) :
     Option (List Nat) :=
-  let minVal := (blocks.headD []).headD []
-  let maxVals := blocks.map fun b => b.getLast?.getD []
-  let lr := selectEntries (getHint token) minVal maxVals
-  let sel := (blocks.take lr.2).drop lr.1
-  if sel.length = 0 then some []
-  else
-    let startTID := base + ((blocks.take lr.1).map List.length).sum
-    search pf maxKey token ⟨startTID, sel.flatten, true⟩
+  match getHint token with
+  | none => none
+  | some hint =>
+    let lr := selectEntries hint (minValOf blocks) (maxValsOf blocks)
+    let sel := (blocks.take lr.2).drop lr.1
+    if sel.length = 0 then some []
+    else
+      let startTID := base + ((blocks.take lr.1).map List.length).sum
+      search pf maxKey token ⟨startTID, sel.flatten, true⟩
 
 end SV.Pattern
